@@ -9,7 +9,7 @@ from mc import pool, wire, refms
 BODIES = [b"keep;\r\n", b"keep;\n# x\n", b"stop;", b"", b"OK\r\n{5}\r\nNO \"x\"\r\n", b"# \xc3\xa9\r\nkeep;\r\n",
           b"# a\xe2\x80\xa8b\x0cc\xc2\x85d\x1ce\r\nkeep;\r\n"]  # U+2028, FF, U+0085, FS are not line ends
 VERBS = ["LISTSCRIPTS", "GETSCRIPT", "PUTSCRIPT", "SETACTIVE", "DELETESCRIPT"]
-ACTIONS = ["NO", "BYE", "SILENCE", "EOF"]
+ACTIONS = ["NO", "BYE", "SILENCE", "EOF", "DROP-REPLY"]  # DROP-REPLY: executed by the server, the reply never arrives
 
 
 def norm(b):
@@ -129,7 +129,7 @@ def task(t):
     distinct = set()
     sample = None
     fault_sets = [()] + [((v, a),) for v in VERBS for a in ACTIONS]
-    pool_ = [(v, a) for v in VERBS for a in (("NO", "BYE", "EOF") if tier == "quick" else ACTIONS)]
+    pool_ = [(v, a) for v in VERBS for a in (("NO", "BYE", "EOF", "DROP-REPLY") if tier == "quick" else ACTIONS)]
     fault_sets += [(x, y) for x, y in itertools.combinations(pool_, 2) if x[0] != y[0]]
     if tier == "thorough":
         small = [(v, a) for v in VERBS for a in ("NO", "EOF")]
